@@ -80,14 +80,14 @@ if res["patch_applies"]:
     # rsp_ql_multi_window_integration, which sleeps 2 s) fail now and then on a loaded machine, with or without the
     # change; re-run such a test alone and count it as flaky only if it then passes twice
     flaky = []
-    for t in [x for x in failed if x != "rsp_ql_dstream_semantics"]:
+    for tname in [x for x in failed if x != "rsp_ql_dstream_semantics"]:
         ok2 = True
         for _ in range(2):
-            rc2, out2 = sh("cargo test --workspace --lib --bins --tests --offline %s 2>&1 | grep -E '^test .*%s' " % (t, t))
+            rc2, out2 = sh("cargo test --workspace --lib --bins --tests --offline %s 2>&1 | grep -E '^test .*%s' " % (tname, tname))
             if "FAILED" in out2 or "ok" not in out2:
                 ok2 = False
         if ok2:
-            flaky.append(t)
+            flaky.append(tname)
     failed = [x for x in failed if x not in flaky]
     res["flaky_rerun_passed"] = flaky
     res["suite_patched"] = {"failed_tests": failed, "passed": sum(int(r[1]) for r in totals), "n_failed": sum(int(r[2]) for r in totals),
